@@ -9,8 +9,10 @@ def plans(tier):
     s = vlib.seed()
     if tier == "quick":
         return [dict(gens="collapse,hole,star,rect", variants="base", n=1800, W=6, nmax=12, bias=0.6, seed=s),
+                dict(gens="rect", variants="base", n=500, W=10, nmax=12, bias=0.6, seed=s + 3),
                 dict(gens="collapse", variants="base", n=700, W=8, nmax=12, bias=0.6, seed=s + 1)]
     return [dict(gens="collapse,hole,star,rect", variants="base", n=50000, W=6, nmax=14, bias=0.6, seed=s),
+            dict(gens="rect", variants="base", n=15000, W=10, nmax=12, bias=0.6, seed=s + 3),
             dict(gens="collapse", variants="base", n=30000, W=8, nmax=12, bias=0.6, seed=s + 1),
             dict(gens="hole,collapse", variants="base", n=20000, W=5, nmax=16, bias=0.8, seed=s + 2)]
 
